@@ -57,6 +57,10 @@ pub enum Step {
     /// handler would report it. `v6`: source address family; `matching`: the source equals the
     /// record's address of that family (otherwise another address)
     Incoming { rec: Rec, v6: bool, matching: bool, attach: bool },
+    /// the first half of `Incoming` only: the handler asks who that is (and fixes the record of the
+    /// session); the session report follows with `CompleteIncoming`, other things happen in between
+    IncomingQuery { rec: Rec, v6: bool, matching: bool, attach: bool },
+    CompleteIncoming,
     /// the handler reports Established(Outgoing) for an outstanding request (its contact's record)
     OutgoingEstablished { sel: u16 },
     /// the handler reports Established(Outgoing) with a record the service did not choose: the peer of
@@ -233,6 +237,8 @@ async fn run(case: &Case, rep: &mut CaseReport) -> Option<(String, String)> {
     let mut prev: HashMap<ids::Id, Enr> = HashMap::new();
     let mut nontrivial = false;
     let mut lookups = Vec::new();
+    // a session whose who-are-you query was answered and whose report is still to come
+    let mut deferred: Option<(Enr, SocketAddr, bool, discv5::enr::NodeId)> = None;
 
     for step in &case.steps {
         // what kind of input is this step?
@@ -242,7 +248,24 @@ async fn run(case: &Case, rep: &mut CaseReport) -> Option<(String, String)> {
         let mut admits: Option<ids::Id> = None;
         s.take_outbox();
         match step {
-            Step::Incoming { rec, v6, matching, attach } => {
+            Step::CompleteIncoming => {
+                let Some((session_enr, src, verifies, id)) = deferred.take() else { continue };
+                allowed.insert(id.raw());
+                network_learnt = true;
+                if verifies {
+                    incoming_src = Some((id.raw(), src));
+                    admits = Some(id.raw());
+                    rep.class("session-report-delayed-after-the-who-are-you-query");
+                    s.inject(HandlerOut::Established(session_enr, src, ConnectionDirection::Incoming)).await;
+                } else {
+                    allowed.remove(&id.raw());
+                    if prev.contains_key(&id.raw()) {
+                        allowed.insert(id.raw());
+                    }
+                    s.inject(HandlerOut::UnverifiableEnr { enr: session_enr, socket: src, node_id: id }).await;
+                }
+            }
+            Step::Incoming { rec, v6, matching, attach } | Step::IncomingQuery { rec, v6, matching, attach } => {
                 let attached = rec_enr(rec);
                 let id = attached.node_id();
                 let rec_addr = if *v6 { attached.udp6_socket().map(SocketAddr::V6) } else { attached.udp4_socket().map(SocketAddr::V4) };
@@ -267,6 +290,10 @@ async fn run(case: &Case, rep: &mut CaseReport) -> Option<(String, String)> {
                 // handler post-condition: address of the source's family equals the source or is absent
                 let fam_addr = if *v6 { session_enr.udp6_socket().map(SocketAddr::V6) } else { session_enr.udp4_socket().map(SocketAddr::V4) };
                 let verifies = fam_addr.map(|a| a == src).unwrap_or(true);
+                if matches!(step, Step::IncomingQuery { .. }) {
+                    deferred = Some((session_enr, src, verifies, id));
+                    continue;
+                }
                 allowed.insert(id.raw());
                 network_learnt = true;
                 if verifies {
@@ -429,7 +456,7 @@ async fn run(case: &Case, rep: &mut CaseReport) -> Option<(String, String)> {
             }
             if !filt(enr) {
                 return Some((
-                    format!("admission/entry-fails-table-filter/{}", match step { Step::Incoming { .. } | Step::OutgoingEstablished { .. } | Step::OutgoingEstablishedWith { .. } => "via-session", Step::AnswerFindNode { .. } => "via-nodes", _ => "other" }),
+                    format!("admission/entry-fails-table-filter/{}", match step { Step::Incoming { .. } | Step::CompleteIncoming | Step::OutgoingEstablished { .. } | Step::OutgoingEstablishedWith { .. } => "via-session", Step::AnswerFindNode { .. } => "via-nodes", _ => "other" }),
                     format!("entry {id} does not pass the configured table filter {:?} (after {step:?})", case.filter),
                 ));
             }
@@ -534,7 +561,35 @@ impl Property for C12 {
                 Step::AnswerFindNode { sel: 65535, recs: vec![Rec { key, ver: ver + 1, shape }] },
             ]
         });
-        let frag = prop_oneof![40 => step.prop_map(|x| vec![x]), 1 => refresh_race];
+        // by construction: a running lookup has learnt a record of node X (from a NODES answer); then X,
+        // which is not in the table, connects with ANOTHER record of itself (older or equally new, another
+        // address) from the address that record advertises
+        let session_vs_lookup = (0u8..12, 0u8..12, 1u8..=3, 0u8..=1, prop_oneof![Just(Shape::V4OddPort), Just(Shape::V4Marked), Just(Shape::Both)], proptest::collection::vec(rec_strategy(), 0..3)).prop_map(|(member, key, ver, newer, other_shape, more)| {
+            let key = if key == member { (key + 1) % 12 } else { key };
+            let mut recs = vec![Rec { key, ver: ver + newer, shape: other_shape }];
+            recs.extend(more);
+            vec![
+                Step::Incoming { rec: Rec { key: member, ver: 1, shape: Shape::V4 }, v6: false, matching: true, attach: true },
+                Step::Lookup { far_from: member },
+                Step::AnswerFindNode { sel: 65535, recs },
+                Step::Incoming { rec: Rec { key, ver, shape: Shape::V4 }, v6: false, matching: true, attach: true },
+            ]
+        });
+        // the same, but the lookup learns the other record BETWEEN the handler's who-are-you query and
+        // its session report (the handshake takes a round trip)
+        let session_races_lookup = (0u8..12, 0u8..12, 1u8..=3, 0u8..=1, prop_oneof![Just(Shape::V4OddPort), Just(Shape::V4Marked), Just(Shape::Both)], proptest::collection::vec(rec_strategy(), 0..3)).prop_map(|(member, key, ver, newer, other_shape, more)| {
+            let key = if key == member { (key + 1) % 12 } else { key };
+            let mut recs = vec![Rec { key, ver: ver + newer, shape: other_shape }];
+            recs.extend(more);
+            vec![
+                Step::Incoming { rec: Rec { key: member, ver: 1, shape: Shape::V4 }, v6: false, matching: true, attach: true },
+                Step::Lookup { far_from: member },
+                Step::IncomingQuery { rec: Rec { key, ver, shape: Shape::V4 }, v6: false, matching: true, attach: true },
+                Step::AnswerFindNode { sel: 65535, recs },
+                Step::CompleteIncoming,
+            ]
+        });
+        let frag = prop_oneof![40 => step.prop_map(|x| vec![x]), 1 => refresh_race, 1 => session_vs_lookup, 1 => session_races_lookup];
         let svc = (
             prop_oneof![3 => Just(Mode::Ip4), 1 => Just(Mode::Ip6), 2 => Just(Mode::Dual)],
             prop_oneof![Just(FilterSel::AcceptAll), Just(FilterSel::NoMarker), Just(FilterSel::EvenPort)],
